@@ -122,6 +122,15 @@ func setupRoutes(module *ast.Module, filePath string, forceInterpreter ...bool) 
 		}
 	}
 
+	// A declared query parameter whose default is not a literal needs an
+	// expression evaluator at request time. The compiled handler has none: it
+	// applied literal defaults only and left such a parameter unbound, so
+	// `? m: int = 1 + 2` answered {"m":3} interpreted and 500 compiled.
+	if useCompiler && moduleHasComputedQueryDefault(module) {
+		printInfo("A query parameter default is a computed expression, using interpreter mode")
+		useCompiler = false
+	}
+
 	// Warn early when an LLM route has no provider configured, rather than
 	// letting every request fail with an opaque "undefined object" error.
 	if os.Getenv("GLYPH_LLM_PROVIDER") == "" && moduleInjectsLLM(module) {
@@ -221,6 +230,26 @@ func setupRoutes(module *ast.Module, filePath string, forceInterpreter ...bool) 
 	setCompiledTypeDefs(module)
 
 	return useCompiler, compiledRoutes, wsServer, router, nil
+}
+
+// moduleHasComputedQueryDefault reports whether some route declares a query
+// parameter whose default is not a plain literal (see evalLiteralExpr).
+func moduleHasComputedQueryDefault(module *ast.Module) bool {
+	for _, item := range module.Items {
+		route, ok := item.(*ast.Route)
+		if !ok || route == nil {
+			continue
+		}
+		for _, decl := range route.QueryParams {
+			if decl.Default == nil {
+				continue
+			}
+			if _, isLiteral := evalLiteralExpr(decl.Default); !isLiteral {
+				return true
+			}
+		}
+	}
+	return false
 }
 
 // startServer is the unified server startup function used by both 'run' and 'dev' commands.
